@@ -169,6 +169,47 @@ pub fn enc_str(e: &XEnc) -> String {
     format!("enc {} traps={} n={}", if w.hyb == 1 { "h" } else { "c" }, w.c.len(), w.encs.len())
 }
 
+pub enum Form {
+    Atom(usize),
+    And(Box<Form>, Box<Form>),
+    Or(Box<Form>, Box<Form>),
+}
+
+impl Form {
+    pub fn eval(&self, v: &dyn Fn(usize) -> bool) -> bool {
+        match self {
+            Form::Atom(i) => v(*i),
+            Form::And(l, r) => l.eval(v) && r.eval(v),
+            Form::Or(l, r) => l.eval(v) || r.eval(v),
+        }
+    }
+}
+
+pub fn form_atoms() -> Vec<QualifiedAttribute> {
+    [("A", "a"), ("B", "b"), ("C", "c"), ("Dé", "é"), ("E", "e"), ("F", "f g")].iter().map(|(d, n)| QualifiedAttribute::new(d, n)).collect()
+}
+
+pub fn parse_form<'a>(t: &'a [&'a str]) -> Option<(Form, &'a [&'a str])> {
+    let (h, rest) = t.split_first()?;
+    if *h == "&" || *h == "|" {
+        let (l, r1) = parse_form(rest)?;
+        let (r, r2) = parse_form(r1)?;
+        Some((if *h == "&" { Form::And(Box::new(l), Box::new(r)) } else { Form::Or(Box::new(l), Box::new(r)) }, r2))
+    } else {
+        let i: usize = h.strip_prefix('a')?.parse().ok()?;
+        Some((Form::Atom(i), rest))
+    }
+}
+
+pub fn eval_ap(p: &AccessPolicy, v: &dyn Fn(&QualifiedAttribute) -> bool) -> bool {
+    match p {
+        AccessPolicy::Broadcast => true,
+        AccessPolicy::Term(a) => v(a),
+        AccessPolicy::Conjunction(l, r) => eval_ap(l, v) && eval_ap(r, v),
+        AccessPolicy::Disjunction(l, r) => eval_ap(l, v) || eval_ap(r, v),
+    }
+}
+
 pub struct Real {
     pub cc: Covercrypt,
     pub msks: Vec<Option<MasterSecretKey>>,
@@ -332,6 +373,33 @@ impl Real {
                 match AccessPolicy::parse(&txt) {
                     Err(e) => err_line(&e),
                     Ok(p) => format!("ok {} dnf {}", ap_str(&p), dnf_str(&p.to_dnf())),
+                }
+            }
+            ["parse_eq", h, f] => {
+                // parse the text with the real parser; is the policy, and its DNF, equivalent to the intended formula?
+                let Some(txt) = str_of_hex(h.strip_prefix('x').unwrap_or("?")) else { return "bad-hex".into() };
+                let toks: Vec<&str> = f.split('.').collect();
+                let Some((form, rest)) = parse_form(&toks) else { return "bad-op".into() };
+                if !rest.is_empty() {
+                    return "bad-op".into();
+                }
+                match AccessPolicy::parse(&txt) {
+                    Err(e) => err_line(&e),
+                    Ok(p) => {
+                        let dnf = p.to_dnf();
+                        let atoms = form_atoms();
+                        let mut eq = true;
+                        for m in 0..(1u32 << atoms.len()) {
+                            let vi = |i: usize| (m >> i) & 1 == 1;
+                            let v = |a: &QualifiedAttribute| atoms.iter().position(|x| x == a).map(|i| vi(i)).unwrap_or(false);
+                            let want = form.eval(&vi);
+                            if eval_ap(&p, &v) != want || dnf.iter().any(|c| c.iter().all(|a| v(a))) != want {
+                                eq = false;
+                                break;
+                            }
+                        }
+                        format!("ok eq={}", eq as u8)
+                    }
                 }
             }
             ["setup", ms, ks] => {
